@@ -393,6 +393,68 @@ Proof. vm_compute. reflexivity. Qed.
 Example C02_ex_hoist_free : tbl_hoist_free x_tbl = true /\ forallb hoist_free [Elem (bs "p") true false [FUrl (bs "href") (x_e "u")] [Children] SpNone] = true.
 Proof. split; reflexivity. Qed.
 
+(* ---------- event handlers: the script definitions in front of an element ---------- *)
+From V Require Import spec.ScriptOnce proofs.ScriptOnceProof proofs.IrFragHandlersProof.
+
+(* every handler of an element - at any depth of conditional attributes, in either branch - is in the list handed to the ONE
+   RenderScriptItems call in front of the element *)
+Theorem C02_handlers_all_hoisted :
+  forall (n : bytes) (e : expr) (attrs : list fattr), handler_in n e attrs -> In e (flat_map script_exprs attrs).
+Proof. exact handlers_all_hoisted. Qed.
+Print Assumptions C02_handlers_all_hoisted.
+
+(* the generated code of any element writes, before the open tag, the class definitions and then what RenderScriptItems
+   writes for all those expressions; the tag and the attributes follow *)
+Theorem C02_elem_defs_in_front :
+  forall (E : Type) (orc : oracles E) (tbl : list (bytes * list nd)) (fuel : nat) (env : E) (kids : option (dblock E))
+         (name : bytes) (b void : bool) (attrs : list fattr) (ch : list nd) (t : trailing) (next : option nd),
+  exists rest,
+    exec_f orc false (compile orc tbl) fuel env (option_map (compile_blk orc) kids) (coalesce (gens orc [Elem name b void attrs ch t] next))
+    = andthen (css_defs orc env attrs)
+        (andthen (script_defs orc env (flat_map script_exprs attrs))
+          (andthen (lit (open_tag orc name)) (andthen (dattrs orc false env attrs) rest))).
+Proof. exact elem_defs_in_front. Qed.
+Print Assumptions C02_elem_defs_in_front.
+
+(* what the calls write: a render context defines each script name once, at its first hoist.  The renderers carry the item
+   lists in-band; the pass that finishes the document computes exactly the registry semantics [run] *)
+Theorem C02_script_defs_once :
+  forall ps : list piece, forallb piece_ok ps = true -> resolve_doc (enc ps) = run [] ps.
+Proof. exact resolve_doc_enc. Qed.
+Print Assumptions C02_script_defs_once.
+
+(* hence in the document rendered up to and including a hoist, the Function of every script of that hoist is present (when
+   a name stands for one function): no handler attribute calls a function the document has not defined *)
+Theorem C02_hoisted_script_defined :
+  forall (a : list piece) (l : list sitem) (n f : bytes),
+    consistent (items_of (a ++ [PHoist l])) -> In (n, f) l -> infix f (run [] (a ++ [PHoist l])).
+Proof. exact hoisted_defined. Qed.
+Print Assumptions C02_hoisted_script_defined.
+
+(* non-vacuity: <button if primary { onclick={ save(id) } } else { onclick={ cancel(id) } }>OK</button> rendered with
+   primary = false under the probe oracles: both functions are defined in front of the button (the else branch calls
+   cancel); a second button in the same context defines nothing again *)
+Definition z_btn : nd :=
+  Elem (bs "button") false false
+    [FCond (y_e "primary") [FScript (bs "onclick") (y_e "save(id)")] [FScript (bs "onclick") (y_e "cancel(id)")]] [Text (bs "OK") SpNone] SpNone.
+Definition z_env : Denote.env :=
+  [(bs "primary", VBool false);
+   (bs "script-call:save(id)", VStr (bs "S(1)")); (bs "script-name:save(id)", VStr (bs "S")); (bs "script-fn:save(id)", VStr (bs "function S(a){}"));
+   (bs "script-call:cancel(id)", VStr (bs "C(1)")); (bs "script-name:cancel(id)", VStr (bs "C")); (bs "script-fn:cancel(id)", VStr (bs "function C(a){}"))].
+Example C02_ex_handlers :
+  handler_in (bs "onclick") (y_e "cancel(id)")
+    [FCond (y_e "primary") [FScript (bs "onclick") (y_e "save(id)")] [FScript (bs "onclick") (y_e "cancel(id)")]] /\
+  out_of (resolve_res (denote_f fr_orc false [] 5 z_env None [z_btn; z_btn] None))
+  = bs "<script>function S(a){}function C(a){}</script><button onclick=""C(1)"">OK</button><button onclick=""C(1)"">OK</button>" /\
+  out_of (resolve_res (exec_f fr_orc false (compile fr_orc []) 5 z_env None (coalesce (gens fr_orc [z_btn; z_btn] None))))
+  = out_of (resolve_res (denote_f fr_orc false [] 5 z_env None [z_btn; z_btn] None)).
+Proof. split; [apply HI_else, HI_here|]. split; vm_compute; reflexivity. Qed.
+Example C02_ex_script_once :
+  forallb piece_ok [PBytes (bs "<p>"); PHoist [(bs "S", bs "fS"); (bs "E", [])]; PBytes (bs "<b>"); PHoist [(bs "C", bs "fC"); (bs "S", bs "fS")]; PHoist [(bs "E", [])]] = true /\
+  resolve_doc (enc [PBytes (bs "<p>"); PHoist [(bs "S", bs "fS"); (bs "E", [])]; PBytes (bs "<b>"); PHoist [(bs "C", bs "fC"); (bs "S", bs "fS")]; PHoist [(bs "E", [])]])
+  = bs "<p><script>fS</script><b><script>fC</script>".
+Proof. split; vm_compute; reflexivity. Qed.
+
 (* ---------- the variable counter of the WHOLE generator model (model/Gen.v, tied to generator.Generate byte for
    byte on every run) ---------- *)
 From V Require Import model.Gen proofs.GenAddsProof proofs.GenLitProof proofs.GenFreshProof proofs.GenSinkProof.
